@@ -97,14 +97,18 @@ Init == /\ tree \in Roots \cup TwinRoots
         /\ budget = ItemBudget /\ nh = NHoles(tree) /\ pos = 0 /\ inner = 0
 
 \* quick: item number i goes to root position (i mod nh) + 1 only; thorough: everywhere
-\* (quick: user node items below a selection of root kinds only, nothing but plain leaves below
-\* a user node root)
+\* (user node items: quick - below a selection of root kinds only, nothing but plain leaves
+\* below a user node root; thorough - every position of the wider selection, one position of
+\* every other root)
 UserHosts == {"Sum", "Call", "CallKw", "If", "CSE", "Tup", "Quotient"}
+UserHostsMore == UserHosts \cup {"Power", "Slice", "Sub", "UNode"}
 ItemAllowedAt(i, p) ==
-    \/ Tier # "quick"
-    \/ /\ (i % nh) + 1 = p
-       /\ tree.t # "UNode"
-       /\ Items[i].t = "UNode" => tree.t \in UserHosts
+    IF Tier = "quick"
+    THEN /\ (i % nh) + 1 = p
+         /\ tree.t # "UNode"
+         /\ Items[i].t = "UNode" => tree.t \in UserHosts
+    ELSE /\ Items[i].t = "UNode" => (tree.t \in UserHostsMore \/ (i % nh) + 1 = p)
+         /\ tree.t = "UNode" => (Items[i].t = "UNode" \/ ((i % nh) + 1 = p /\ i % 3 = 0))
 \* objects CPython shares: equal small constants, the empty tuple, equal strings - two
 \* occurrences would be one object and the occurrence numbers could not be told apart
 NoSameConst(s) ==
@@ -183,9 +187,12 @@ MoreSet(t) ==
 \* the callback mapper has no place for user handlers
 UsersOf(t) == { Pre(t)[i].u : i \in { j \in 1..Len(Pre(t)) : Pre(t)[j].t = "UNode" } }
 ImplChoices(t) ==
-    LET Uni == UNION { UUniverse(u) : u \in UsersOf(t) } IN
-    IF Tier = "quick" THEN { I \in SUBSET Uni : Cardinality(I) <= 1 \/ I = Uni } ELSE SUBSET Uni
-FewImpls(t) == IF Tier = "quick" THEN { UNION { UUniverse(u) : u \in UsersOf(t) } } ELSE ImplChoices(t)
+    LET Uni == UNION { UUniverse(u) : u \in UsersOf(t) }
+        nu == Cardinality(Uni) IN
+    IF Tier = "quick" THEN { I \in SUBSET Uni : Cardinality(I) <= 1 \/ I = Uni }
+    ELSE { I \in SUBSET Uni : Cardinality(I) <= 1 \/ Cardinality(I) >= nu - 1 }
+FewImpls(t) == IF Tier = "quick" THEN { UNION { UUniverse(u) : u \in UsersOf(t) } }
+               ELSE { {}, UNION { UUniverse(u) : u \in UsersOf(t) } }
 UserSet(t) ==
          { CfgU(f, AP2, << >>, << >>, SetToSeq(I)) : f \in AllFams \ {"cbident"}, I \in ImplChoices(t) }
     \cup { CfgU("cbident", AP2, << >>, << >>, << >>) }
@@ -193,7 +200,7 @@ UserSet(t) ==
              n \in { i \in 1..Len(Pre(t)) : Pre(t)[i].t = "UNode" }, I \in FewImpls(t) }
     \cup { CfgU("ident", AP3, << >>, SetToSeq(LastVar(t)), SetToSeq(I)) : I \in FewImpls(t) }
 ConfigSet(t) == IF UsersOf(t) # {}
-                THEN (IF Tier = "quick" THEN UserSet(t) ELSE UserSet(t) \cup QuickSet(t))
+                THEN UserSet(t)
                 ELSE IF Tier = "quick" THEN QuickSet(t) ELSE QuickSet(t) \cup MoreSet(t)
 
 \* ------------------------------------------------------------------ checked on the model
